@@ -22,13 +22,15 @@ def digitsAux : Nat → Nat → List Nat → List Nat
 /-- decimal digits of `n`, most significant first (`[0]` for 0) -/
 def digitsOf (n : Nat) : List Nat := digitsAux (n + 1) n []
 
-def digitChar (d : Nat) : Char := Char.ofNat (48 + d % 10)
+def digitChar (d : Nat) : Char :=
+  match d % 10 with
+  | 0 => '0' | 1 => '1' | 2 => '2' | 3 => '3' | 4 => '4' | 5 => '5' | 6 => '6' | 7 => '7' | 8 => '8' | _ => '9'
 
 def isDigit (c : Char) : Bool := '0' ≤ c && c ≤ '9'
 
 def dropZeros : List Nat → List Nat
-  | 0 :: ds => dropZeros ds
-  | ds => ds
+  | [] => []
+  | d :: ds => if d % 10 == 0 then dropZeros ds else d :: ds
 
 /-- integer part text: no leading zeros, "0" for nothing -/
 def intPartText (ds : List Nat) : List Char :=
@@ -291,20 +293,24 @@ def base64Encode : Bytes → Bytes
 
 def base64DecodeQuads : Bytes → Option Bytes
   | [] => some []
-  | [a, b, 61, 61] =>
-    match b64Val a, b64Val b with
-    | some x, some y => some [byteOf ((x * 64 + y) / 16)]
-    | _, _ => none
-  | [a, b, c, 61] =>
-    match b64Val a, b64Val b, b64Val c with
-    | some x, some y, some z => let n := (x * 64 + y) * 64 + z; some [byteOf (n / 1024), byteOf ((n / 4) % 256)]
-    | _, _, _ => none
   | a :: b :: c :: e :: r =>
-    match b64Val a, b64Val b, b64Val c, b64Val e, base64DecodeQuads r with
-    | some x, some y, some z, some w, some rest =>
-      let n := ((x * 64 + y) * 64 + z) * 64 + w
-      some (byteOf (n / 65536) :: byteOf ((n / 256) % 256) :: byteOf (n % 256) :: rest)
-    | _, _, _, _, _ => none
+    if e == 61 then
+      -- padded final quantum
+      if !r.isEmpty then none
+      else if c == 61 then
+        match b64Val a, b64Val b with
+        | some x, some y => some [byteOf ((x * 64 + y) / 16)]
+        | _, _ => none
+      else
+        match b64Val a, b64Val b, b64Val c with
+        | some x, some y, some z => let n := (x * 64 + y) * 64 + z; some [byteOf (n / 1024), byteOf ((n / 4) % 256)]
+        | _, _, _ => none
+    else
+      match b64Val a, b64Val b, b64Val c, b64Val e, base64DecodeQuads r with
+      | some x, some y, some z, some w, some rest =>
+        let n := ((x * 64 + y) * 64 + z) * 64 + w
+        some (byteOf (n / 65536) :: byteOf ((n / 256) % 256) :: byteOf (n % 256) :: rest)
+      | _, _, _, _, _ => none
   | _ => none
 
 /-- Go `base64.StdEncoding.Decode` (padding required, `\r`/`\n` ignored, trailing bits not checked) -/
